@@ -67,6 +67,34 @@ def _mk_buffer_classes():
     return VNumpy, VByteArray
 
 
+def _instrument(xb):
+    """logging of allocate / free and raw() for a buffer object that is not of one of the harness classes"""
+    state = dict(depth=0)
+    xb._vlog = []
+    orig_alloc, orig_free = xb.allocate, xb.free
+
+    def allocate(size, align=True):
+        state["depth"] += 1
+        try:
+            off = orig_alloc(size, align=align)
+        finally:
+            state["depth"] -= 1
+        if state["depth"] == 0:
+            xb._vlog.append(("alloc", int(off), int(size)))
+        return off
+
+    def free(offset, size):
+        r = orig_free(offset, size)
+        xb._vlog.append(("free", int(offset), int(size)))
+        return r
+
+    def raw():
+        b = xb.buffer
+        data = bytes(b) if isinstance(b, bytearray) else b.tobytes()
+        return data[: xb.capacity]
+    xb.allocate, xb.free, xb.raw = allocate, free, raw
+
+
 _BUFCLS = None
 
 
@@ -276,19 +304,37 @@ class World:
 
     def gen(self, allow=("null", "alias", "new", "foreign"), like_buf=None, **kw):
         kw.setdefault("capacity_p", getattr(self, "capacity_p", 0.15))
+        kw.setdefault("xobj_p", getattr(self, "xobj_p", 0.12))
 
         def lookup(at):         # the object a reference of the `like` value denotes (references stay in the buffer of `like`)
             k = (like_buf, at)
             return (self.handles[k]["tx"], self.shadow[k]) if like_buf is not None and k in self.shadow else None
-        return X.Gen(self.ns, self.rng, refchoice=lambda tx, b: self.refchoice(tx, b, allow),
-                     lookup=lookup, xobj=self.xobj_choice if "foreign" in allow else None, **kw)
+        g = X.Gen(self.ns, self.rng, refchoice=lambda tx, b: self.refchoice(tx, b, allow),
+                  lookup=lookup, xobj=self.xobj_choice if "foreign" in allow else None, **kw)
+        g.omit_p = 0 if getattr(self, "forced", None) else getattr(self, "omit_p", 0.08)
+        return g
 
     def xobj_choice(self, tx, b):
         """an existing object of type tx (any buffer) used as the value of a nested part: (expected input form, handle)"""
         k = X.key(tx)
         c = [key for key, h in self.handles.items() if X.key(h["tx"]) == k and not _unknown_cap(tx, self.shadow[key]) and not X.has_slack(tx, self.shadow[key])]
-        if not c:
+        # ... or a nested part of an existing object (a view handed out by the library: a field, an item)
+        parts = []
+        for key in list(self.handles):
+            if len(parts) > 12:
+                break
+            for acc, last, etx, cur in self.all_elems(key, limit=30):
+                if etx["k"] in ("struct", "arr") and X.key(etx) == k and not _unknown_cap(etx, cur) and not X.has_slack(etx, cur):
+                    parts.append((key, acc + [last], cur))
+        if not c and not parts:
             return None
+        if parts and (not c or self.rng.random() < 0.5):
+            key, acc, cur = self.rng.choice(parts)
+            try:
+                h = self.walk(self.fetch(key, self.rng.choice([r for r in self.routes(key) if r not in ("nplike", "hybrid")])), acc)
+            except Exception:       # noqa
+                return None
+            return self.copy_input(tx, cur, key[0], key[0] == b), h
         key = self.rng.choice(c)
         inp = self.copy_input(tx, self.shadow[key], key[0], key[0] == b)
         return inp, self.fetch(key, self.rng.choice([r for r in self.routes(key) if r not in ("nplike", "hybrid")]))
@@ -602,7 +648,7 @@ class World:
         walk(self.handles[key]["tx"], self.shadow[key], [])
         return out
 
-    def err(self, kind):
+    def err(self, kind, force=None):
         """perform one operation that cannot be honoured; returns False when no applicable target exists"""
         rng = self.rng
         keys = list(self.handles)
@@ -660,6 +706,10 @@ class World:
                      and (len(etx["sh"]) == 1 or True)]
                 if not c:
                     continue
+                if force == "int":
+                    c = [x_ for x_ in c if sum(1 for d in x_[2]["sh"] if d < 0) == 1]
+                    if not c:
+                        continue
                 acc, last, etx, cur = rng.choice(c)
                 sh = list(cur["sh"])
                 ax = rng.randrange(len(sh))
@@ -693,6 +743,19 @@ class World:
                         detail = f"{key} {acc}{last} := xobject of the same class with shape {sh2} for stored shape {cur['sh']}"
                         tag = f"{len(sh2)}d-xobject-other-shape"
                         attempt(lambda: assign(key, acc, last, srcobj))
+                        found = True
+                        break
+                ndyn = [i for i, d in enumerate(etx["sh"]) if d < 0]
+                if len(ndyn) == 1 and (force == "int" or rng.random() < 0.3):
+                    # an INTEGER (the length form of an array with one dynamic dimension) other than the stored extent of that dimension:
+                    # the total number of items, one more, one less, zero
+                    ext = cur["sh"][ndyn[0]]
+                    cands = [n_ for n_ in (len(cur["it"]), ext + 1, ext - 1, 0, 2 * ext) if n_ >= 0 and n_ != ext]
+                    if cands:
+                        n_ = rng.choice(cands[:1] * 3 + cands)
+                        detail = f"{key} {acc}{last} := integer {n_} for stored shape {cur['sh']}"
+                        tag = f"{len(cur['sh'])}d-integer-other-length"
+                        attempt(lambda: assign(key, acc, last, n_))
                         found = True
                         break
                 if etx["it"]["k"] == "sc" and rng.random() < 0.35:
@@ -851,7 +914,7 @@ class World:
         X.importable(H)
         X.importable(H._XoStruct)
         self.ns.cache[k] = H._XoStruct
-        inp, py = self.gen(("null", "new")).value(tx, b)
+        inp, py = self.gen(("null", "new", "alias") if getattr(self, "forced", None) else ("null", "new")).value(tx, b)
         exc, h = "", None
         try:
             h = H(**py, _buffer=self.bufs[b])
@@ -892,6 +955,8 @@ class World:
                 if any(xb is ob for ob in self.bufs):
                     newbuf[id(xb)] = [i for i, ob in enumerate(self.bufs) if ob is xb][0]     # NOT independent: TLC will say so
                 else:
+                    if not hasattr(xb, "raw"):      # a buffer the library created on its own while pickling / unpickling: observe it like the others
+                        _instrument(xb)
                     if getattr(xb, "_vlog", None) is None:
                         xb._vlog = []
                     xb._vlog.clear()
